@@ -1950,7 +1950,11 @@ func c07Run(els []c07TraceEl, fs *hx.FindingSet) error {
 	}
 	defer x.Close()
 	if mut == nil {
-		return nil
+		// no mutation recorded: the failing step was the sequence that follows the base's own submission
+		if len(x.T.TxInputs) > 0 {
+			x.submit(x.T)
+		}
+		return x.overtakingChild()
 	}
 	m := *mut
 	m.Txid = ""
@@ -2501,5 +2505,54 @@ func TestC07(t *testing.T) {
 				cs.Label("submit-base-admitted")
 			}
 		}
+		// a child that overtakes its parent: the child is verified and refused for lack of its input, the parent
+		// arrives, then the child's id comes again - with another body. What the entry point remembers about an id
+		// must never stand in for verifying the body that arrives under it.
+		if err := x.overtakingChild(); err != nil {
+			cs.Op(c07TraceEl{Base: b})
+			cs.Failf("%v", err)
+		} else {
+			cs.Label("overtaking-child-sequence")
+		}
 	})
+}
+
+func (x *c07Ctx) overtakingChild() error {
+	var k *hx.Key
+	var u *hx.UTXO
+	s := x.nm.PoolState()
+	ki := 0
+	for i := 0; i < 7 && k == nil; i++ {
+		if us := spendable(s, hx.Ring[i].Address, x.height, false); len(us) > 0 {
+			k, u, ki = hx.Ring[i], us[0], i
+		}
+	}
+	if k == nil {
+		return nil
+	}
+	thief := hx.Ring[(ki+1)%5]
+	sign := func(tx *pb.Transaction) {
+		c07PlainSign(tx, [][2]*hx.Key{{k, k}}, c07DefWho(nil))
+		tx.Txid = c07ID(tx)
+	}
+	parent := x.pureTransfer(k.Address, []string{k.Address}, u, k.Address, "overtaken-parent")
+	sign(parent)
+	child := x.pureTransfer(k.Address, []string{k.Address}, &hx.UTXO{Addr: k.Address, Txid: parent.Txid, Off: 0, Amount: u.Amount}, k.Address, "overtaking-child")
+	sign(child)
+	if err := x.submit(child); err == nil {
+		return fmt.Errorf("Chain.SubmitTx admits a transaction whose input does not exist yet")
+	}
+	if err := x.submit(parent); err != nil {
+		return nil // (the parent is not admissible for an unrelated reason: nothing to show)
+	}
+	altered := hx.CloneTx(child)
+	altered.TxOutputs[0].ToAddr = []byte(thief.Address)
+	if err := x.submit(altered); err == nil {
+		return fmt.Errorf("Chain.SubmitTx admits an altered body (output re-addressed to %s) under the id and signatures of a transaction it had verified and refused for lack of its input before the parent arrived", thief.Address)
+	}
+	altered.Txid = c07ID(altered)
+	if err := x.submit(altered); err == nil {
+		return fmt.Errorf("Chain.SubmitTx admits the altered child with its id recomputed (old signatures)")
+	}
+	return nil
 }
